@@ -205,7 +205,27 @@ func runC17(c *Ctx) {
 		if d <= 0 {
 			return gen.Pick(r, []string{"1", "x", "true", "null", "\"s\"", "a.b", "12.5e3", "\"t ${v}\""})
 		}
-		switch r.Intn(12) {
+		switch r.Intn(22) {
+		case 12:
+			return "{for k, v in " + ex(d-1) + " : " + gen.Pick(r, []string{"k", "v", "\"${k}\""}) + " => " + ex(d-1) + gen.Pick(r, []string{"", "...", " if " + ex(d-1), "... if v"}) + "}"
+		case 13:
+			return "[for " + gen.Pick(r, []string{"v", "i, v"}) + " in " + ex(d-1) + " : " + ex(d-1) + gen.Pick(r, []string{"", " if " + ex(d-1)}) + "]"
+		case 14:
+			return ex(d-1) + gen.Pick(r, []string{"[*]", "[*].a", "[*].a.b[0]", ".0", ".a.b", ".*", "[\"k\"]"})
+		case 15:
+			return gen.Pick(r, []string{"f()", "f(" + ex(d-1) + ")", "f(" + ex(d-1) + ",)", "f(\n" + ex(d-1) + ",\n" + ex(d-1) + "\n)"})
+		case 16:
+			return ex(d-1) + gen.Pick(r, []string{" != ", " >= ", " <= ", " > ", " || ", " / ", " - "}) + ex(d-1)
+		case 17:
+			return "{\n  k = " + ex(d-1) + "\n  \"q\" : " + ex(d-1) + "\n  (x) = " + ex(d-1) + ",\n}"
+		case 18:
+			return "(\n" + ex(d-1) + "\n)"
+		case 19:
+			return "<<-EOT\n    a ${" + ex(d-1) + "}\n  %{ for x in " + ex(d-1) + " ~}\n  ${x}\n  %{ endfor }\n  EOT\n"
+		case 20:
+			return "\"${~ " + ex(d-1) + " ~} %{~ if " + ex(d-1) + " ~} y %{~ else ~} n %{~ endif ~}\""
+		case 21:
+			return "[\n" + ex(d-1) + ",\n" + ex(d-1) + ",\n]"
 		case 0:
 			return ex(d-1) + gen.Pick(r, []string{" + ", " * ", " == ", " && ", " < ", "%", "-"}) + ex(d-1)
 		case 1:
